@@ -237,13 +237,13 @@ pub struct DumpStats {
 }
 
 /// families: "f23" | "f33" | "ci" | "rand:<n>:<maxpats>:<maxlen>" | "shapes"
-pub fn run(out_prefix: &str, shards: usize, families: &[String], seed: u64, full: bool) -> DumpStats {
+pub fn run(out_prefix: &str, shards: usize, families: &[String], seed: u64, full: bool, mks: &[&'static str]) -> DumpStats {
     let mut out = Out::create(out_prefix, shards);
     let mut stats = DumpStats { automata: 0, states: 0, lists: 0 };
     let mut n = 0usize;
     let mut emit = |out: &mut Out, stats: &mut DumpStats, pats: &Pats, ci: bool| {
         stats.lists += 1;
-        for mk in MKS {
+        for &mk in mks {
             for c in variants(pats, mk, ci, full) {
                 let d = dump_ctx(&c);
                 stats.automata += 1;
@@ -301,6 +301,11 @@ pub fn run(out_prefix: &str, shards: usize, families: &[String], seed: u64, full
                     emit(&mut out, &mut stats, &p, false);
                 }
             }
+            "shapesbig" => {
+                for p in big_shape_lists() {
+                    emit(&mut out, &mut stats, &p, false);
+                }
+            }
             other => panic!("unknown family {}", other),
         }
     }
@@ -312,19 +317,33 @@ pub fn run(out_prefix: &str, shards: usize, families: &[String], seed: u64, full
 /// 127, 128, 255, 256 outgoing edges; many byte classes; deep chains.
 pub fn shape_lists() -> Vec<Pats> {
     let mut v: Vec<Pats> = vec![];
-    for fan in [1usize, 3, 4, 5, 8, 9, 127, 128, 255, 256] {
+    for fan in [3usize, 4, 5, 9] {
         // root fan-out
-        v.push((0..fan).map(|b| vec![b as u8, b'x']).collect());
+        v.push((0..fan).map(|b| vec![b'a' + b as u8, b'x']).collect());
+    }
+    for fan in [1usize, 3, 4, 5, 8, 9, 13] {
         // fan-out below one shared prefix byte (non-root state)
-        v.push((0..fan).map(|b| vec![b'q', b as u8]).collect());
+        v.push((0..fan).map(|b| vec![b'q', b'a' + b as u8]).collect());
     }
     // deep single chain (one-transition states) with a suffix family
-    let chain: Vec<u8> = (0..40u8).map(|i| b'a' + (i % 5)).collect();
+    let chain: Vec<u8> = (0..24u8).map(|i| b'a' + (i % 5)).collect();
     v.push(vec![chain.clone()]);
-    v.push((0..chain.len()).map(|i| chain[i..].to_vec()).collect());
+    v.push((0..chain.len()).step_by(3).map(|i| chain[i..].to_vec()).collect());
     // a^k b family
     v.push((1..8).map(|k| { let mut p = vec![b'a'; k]; p.push(b'b'); p }).collect());
-    // all single bytes (256 classes)
+    v
+}
+
+/// big fan-outs: 127/128 (sparse transition count limits), 255/256 (all
+/// bytes), all single bytes (256 byte classes)
+pub fn big_shape_lists() -> Vec<Pats> {
+    let mut v: Vec<Pats> = vec![];
+    for fan in [128usize, 256] {
+        v.push((0..fan).map(|b| vec![b as u8, b'x']).collect());
+    }
+    for fan in [127usize, 255] {
+        v.push((0..fan).map(|b| vec![b'q', b as u8]).collect());
+    }
     v.push((0..=255u8).map(|b| vec![b]).collect());
     v
 }
